@@ -1,6 +1,6 @@
 // ---- C08: 64-bit two's-complement arithmetic, written from the statement ----
 
-spec fn wrap64(x: int) -> i64 {
+pub open spec fn wrap64(x: int) -> i64 {
     let m = x % 0x1_0000_0000_0000_0000;
     if m >= 0x8000_0000_0000_0000 { (m - 0x1_0000_0000_0000_0000) as i64 } else { m as i64 }
 }
@@ -11,10 +11,10 @@ spec fn pow2(n: nat) -> int decreases n { if n == 0 { 1 } else { 2 * pow2((n - 1
 spec fn shcount(r: i64) -> nat { (r & 63) as nat }
 
 /// truncating division / remainder on mathematical integers (r != 0)
-spec fn tdiv(l: int, r: int) -> int {
+pub open spec fn tdiv(l: int, r: int) -> int {
     if (l >= 0 && r > 0) { l / r } else if (l < 0 && r < 0) { (-l) / (-r) } else if l < 0 { -((-l) / r) } else { -(l / (-r)) }
 }
-spec fn trem(l: int, r: int) -> int { l - r * tdiv(l, r) }
+pub open spec fn trem(l: int, r: int) -> int { l - r * tdiv(l, r) }
 
 /// None: the operation cannot be evaluated (division or remainder by zero) -> must surface as an error item (C10)
 spec fn binop_spec(op: BinOp, l: i64, r: i64) -> Option<i64> {
@@ -28,9 +28,10 @@ spec fn binop_spec(op: BinOp, l: i64, r: i64) -> Option<i64> {
         BinOp::Or => Some(l | r),
         BinOp::Xor => Some(l ^ r),
         BinOp::And => Some(l & r),
-        BinOp::ShiftLeft => Some(wrap64(l * pow2(shcount(r)))),
-        // arithmetic shift right = floor division by 2^count
-        BinOp::ShiftRight => Some((l as int / pow2(shcount(r))) as i64),
+        // "shifts use the low six bits of the count with >> arithmetic": Verus' `<<` on i64 drops the bits shifted
+        // out (two's-complement wrap), its `>>` on i64 is the arithmetic (sign-propagating) shift
+        BinOp::ShiftLeft => Some(l << (r & 63)),
+        BinOp::ShiftRight => Some(l >> (r & 63)),
         BinOp::Plus => Some(wrap64(l + r)),
         BinOp::Minus => Some(wrap64(l - r)),
         BinOp::Times => Some(wrap64(l * r)),
@@ -46,3 +47,14 @@ spec fn unop_spec(op: UnaryOp, v: i64) -> i64 {
         UnaryOp::BinaryNot => !v,
     }
 }
+
+// [A-std] i64::wrapping_neg / wrapping_div / wrapping_rem (no vstd specification): two's-complement negation, and
+// truncating division / remainder whose only overflow case (MIN / -1) wraps. Cross-checked by the Kani twins.
+pub assume_specification[ i64::wrapping_neg ](x: i64) -> (r: i64)
+    ensures r == wrap64(-(x as int));
+pub assume_specification[ i64::wrapping_div ](x: i64, y: i64) -> (r: i64)
+    requires y != 0,
+    ensures r == wrap64(tdiv(x as int, y as int));
+pub assume_specification[ i64::wrapping_rem ](x: i64, y: i64) -> (r: i64)
+    requires y != 0,
+    ensures r == wrap64(trem(x as int, y as int));
